@@ -137,15 +137,24 @@ class CoopLock(object):
         self.owner = sys._getframe(1).f_locals.get("self")      # the object whose __init__ creates the lock
         self.holder = None
         self.acquires = 0
+        self.conditional = 0        # acquisitions that may give up (non-blocking or with a timeout): no mutual exclusion can rest on them
         LOCKS.append(self)
 
     def acquire(self, blocking=True, timeout=-1):
         c = _STATE["coop"]
         t = c.me() if c is not None else None
+        timed = blocking and timeout is not None and timeout >= 0
+        if timed or not blocking:
+            self.conditional += 1
         if t is not None:
             c.yield_()
             while self.held:
                 if not blocking:
+                    return False
+                if timed:
+                    # time is not modelled: a timed wait may expire whenever the waiter is scheduled while the lock is still held
+                    # (the holder is "slow"); if the holder is scheduled first and releases, the wait succeeds
+                    c.log(("timeout", self))
                     return False
                 t.blocked_on = self
                 c.yield_()
